@@ -157,7 +157,7 @@ pub(crate) fn remove_or_compress_too_old_logfiles_impl(
     for (index, file) in files.into_iter().enumerate() {
         #[cfg(feature = "verif_hooks")]
         crate::verif_hooks::point("cleanup.item", Some(&file)).ok();
-        if index >= log_limit + compress_limit {
+        if index >= log_limit.saturating_add(compress_limit) {
             // delete (log or log.gz)
             #[cfg(feature = "verif_hooks")]
             crate::verif_hooks::point("cleanup.remove", Some(&file))?;
